@@ -43,7 +43,7 @@ Proof.
   { intros c cl Hc Hcl. rewrite forallb_forall in H3. specialize (H3 c Hc). rewrite forallb_forall in H3.
     specialize (H3 cl Hcl). unfold call_ok in H3. apply andb_true_iff in H3 as [A B]. split; lia. }
   split.
-  { intros sp Hsp. rewrite forallb_forall in H2. specialize (H2 sp Hsp). lia. }
+  { intros sp Hsp. rewrite forallb_forall in H2. specialize (H2 sp Hsp). apply andb_true_iff in H2 as [H2 _]. lia. }
   split; auto. split.
   { intros i Hi. rewrite forallb_forall in H0. apply H0. apply seq_nat_in. lia. }
   intros r sp Hsp He Hrd. rewrite forallb_forall in H.
